@@ -191,8 +191,10 @@ def route_events(cls_name, G, sol, *, mode="edge", starts=(), ends=(), k=None, a
                 if x < (0 if isinstance(x, int) else -1e-9):
                     ev.append((f"C01/negative-{key}/{cls_name}", f"{key} entry {x!r} {tag}")); break
     if k is not None:
-        if len(routes) > k:
-            ev.append((f"C01/count>k/{cls_name}/{mode}", f"{len(routes)} routes for k={k} {tag}"))
+        # with solution_weights_superset the unused layers are handed out as empty routes; only real routes count against k
+        nonempty = [r for r in routes if isinstance(r, list) and len(r) > 0]
+        if len(nonempty) > k:
+            ev.append((f"C01/count>k/{cls_name}/{mode}", f"{len(nonempty)} non-empty routes for k={k} {tag}"))
         elif len(routes) < k and not allow_empty and not starts and not ends:
             one_node = any(G.in_degree(v) == 0 and G.out_degree(v) == 0 for v in G.nodes)
             ev.append((f"C01/count<k/{cls_name}/{mode}" + ("/one-node-route-possible" if one_node else ""),
@@ -255,8 +257,6 @@ class RouteMonitor:
                     mode = snap.get("flow_attr_origin", snap.get("cover_type", "edge"))
                     removed = (a and a[0]) or k.get("remove_empty_paths") or k.get("remove_empty_walks")
                     kk = snap.get("k") if name.startswith("k") else None
-                    if kk is not None and snap.get("solution_weights_superset") is not None:
-                        kk = None
                     if kk is None and name.startswith("k") and getattr(self_, "k", None) is not None and snap.get("solution_weights_superset") is None:
                         kk = self_.k
                     evs = route_events(name, snap["G"], res, mode=mode, starts=snap.get("additional_starts"), ends=snap.get("additional_ends"),
